@@ -1457,7 +1457,27 @@ func (s *sev) evalBuiltin(fr *sevFrame, name string, x *ast.CallExpr) tv {
 			add = append(add, v)
 		}
 		if x.Ellipsis.IsValid() {
-			s.abort("append with ellipsis")
+			// append(a, b...): concatenation of known slices; onto an empty slice it is b itself
+			if len(add) == 1 {
+				_, baseNil := base.(tNil)
+				bs, baseLit := base.(*tSliceLit)
+				switch b := add[0].(type) {
+				case *tSliceLit:
+					if baseNil {
+						return b
+					}
+					if baseLit && bs.LenOf == nil && b.LenOf == nil {
+						return &tSliceLit{T: bs.T, Elems: append(append([]tv{}, bs.Elems...), b.Elems...)}
+					}
+				case *tEach, *tSym:
+					if baseNil || (baseLit && len(bs.Elems) == 0 && bs.LenOf == nil) {
+						return add[0]
+					}
+				case tNil:
+					return base
+				}
+			}
+			s.abort("append with ellipsis of %s onto %s", add[0].ts(), base.ts())
 		}
 		switch b := base.(type) {
 		case *tAcc:
